@@ -2,7 +2,8 @@
    Only statements, each closed by [exact] of a lemma proved in Proofs/. *)
 From PV Require Import Base.Prelude Base.Slice Model.EncodeBase Model.Encode Model.EncodeCompose Model.EncodeDHCP
      Spec.EncodeRef Spec.EncodeRefDHCP
-     Proofs.Encode Proofs.EncodeIP4 Proofs.EncodeEther Proofs.EncodeMisc Proofs.EncodeCompose Proofs.EncodeDHCP.
+     Proofs.Encode Proofs.EncodeIP4 Proofs.EncodeEther Proofs.EncodeMisc Proofs.EncodeCompose Proofs.EncodeDHCP
+     Proofs.EncodeDNS.
 Open Scope N_scope.
 
 (* EncodeEther: for every buffer of capacity >= 14 (any length, any contents), every
@@ -358,3 +359,42 @@ Theorem C03_dhcp4_options_rt : forall o order perm z,
   ref_dhcp_opts (S (length area)) area = Some em /\ after_end (S (length area)) area = Some z.
 Proof. exact dhcp_options_rt. Qed.
 Print Assumptions C03_dhcp4_options_rt.
+
+(* ---------------------------------------------------------------- *)
+(* DNS query.  For every transaction id, flags, question type and every name given as a list of
+   labels of 1..63 bytes (wire form at most 255 bytes): header getters and DecodeQuestion return
+   the supplied values, and the RFC 1035 reference decoder finds exactly this question with
+   nothing trailing.  The root name (no labels) is the recorded finding dnsq-root-name:
+   DecodeQuestion rejects the well-formed 17-byte query (layer_dns.go belongs to the DNS cluster). *)
+Theorem C03_dnsquery_refuted :
+  exists p, encode_dns_query 1 256 (wire_of_labels []) 1 = Ok p /\
+            known_C03_dns_root_name [] = true /\
+            dns_decode_question p = Err EParseFrame /\
+            ref_dns_query (view p) <> None.
+Proof. exact dnsquery_root_refuted. Qed.
+Print Assumptions C03_dnsquery_refuted.
+
+Theorem C03_dnsquery_rt_partial : forall id fl ls qt,
+  id < 65536 -> fl < 65536 -> qt < 65536 -> labels_ok ls -> Forall bytes_ok ls ->
+  (length (wire_of_labels ls) <= 255)%nat ->
+  known_C03_dns_root_name ls = false ->
+  let name := wire_of_labels ls in
+  exists p,
+    encode_dns_query id fl name qt = Ok p /\
+    len p = (16 + length name)%nat /\ cap p = 512%nat /\
+    view p = dns_query_bytes id fl name qt /\ bytes_ok (view p) /\
+    dns_decode_lib p = Ok {| dv_id := id; dv_flags := fl; dv_qd := 1; dv_an := 0; dv_ns := 0; dv_ar := 0;
+                             dv_question := {| q_labels := ls; q_type := qt; q_class := 1;
+                                               q_end := (16 + length name)%nat |} |} /\
+    ref_dns_query (view p) =
+      Some {| rq_id := id; rq_flags := fl; rq_qd := 1; rq_an := 0; rq_ns := 0; rq_ar := 0;
+              rq_labels := ls; rq_type := qt; rq_class := 1; rq_trailing := [] |}.
+Proof. exact dnsquery_rt_partial. Qed.
+Print Assumptions C03_dnsquery_rt_partial.
+
+Example C03_dnsquery_rt_ex :
+  let ls := [[119;119;119]; [101;120;97;109;112;108;101]; [99;111;109]] in
+  labels_ok ls /\ known_C03_dns_root_name ls = false /\ (length (wire_of_labels ls) <= 255)%nat /\
+  exists p, encode_dns_query 4660 256 (wire_of_labels ls) 1 = Ok p /\ len p = 33%nat.
+Proof. exact dnsquery_rt_ex. Qed.
+Print Assumptions C03_dnsquery_rt_ex.
